@@ -36,6 +36,9 @@ pub struct Scn {
     /// fault: the traffic pauses before frame `.0` for `.1` simulated ns (shorter than any flow lifetime)
     #[serde(default)]
     pub idle_gap: Option<(usize, u64)>,
+    /// via_analyzer, HTTP: a second init_pool on the same analyzer while a handle to the first pool is held
+    #[serde(default)]
+    pub reinit_pool: bool,
 }
 
 fn sequential(cfg: &PoolCfg, trace: &[Timed]) -> Result<Vec<Vec<Obs>>, Violation> {
@@ -120,7 +123,7 @@ fn run_eq(s: &Scn, st: &mut RunStats, check_probe_only: bool) -> Result<(), Viol
     let seq_all = sequential_gap(&s.cfg, &all, s.idle_gap)?;
     let seq_probe_fresh = if s.probe.is_empty() { vec![] } else { sequential(&s.cfg, &s.probe)? };
     let n = all.len();
-    let plan = Arc::new(ExecPlan { via_analyzer: s.via_analyzer, cfg: s.cfg.clone(), dispatchers: vec![all.iter().map(|p| p.frame.clone()).collect()], stats_calls: 0, wait_for: None, consumer_gone_after: None, shutdown_after_yields: None, idle_gap: s.idle_gap });
+    let plan = Arc::new(ExecPlan { via_analyzer: s.via_analyzer, cfg: s.cfg.clone(), dispatchers: vec![all.iter().map(|p| p.frame.clone()).collect()], stats_calls: 0, wait_for: None, consumer_gone_after: None, shutdown_after_yields: None, idle_gap: s.idle_gap, reinit_pool: s.reinit_pool });
     st.evals = 0;
     let mut any = false;
     for seed in &s.schedules {
@@ -144,6 +147,9 @@ fn run_eq(s: &Scn, st: &mut RunStats, check_probe_only: bool) -> Result<(), Viol
         }
         if s.idle_gap.is_some() {
             st.fault("traffic_pauses_and_workers_time_out");
+        }
+        if s.reinit_pool {
+            st.fault("pool_reinitialised_while_first_pool_still_busy");
         }
         if check_probe_only {
             // C01 pool part: after arbitrary faulty traffic the workers are alive and treat the probe like a fresh analyzer
@@ -414,7 +420,7 @@ impl Prop for C10 {
             cfg.workers = *r.pick(&[2usize, 2, 3, 4]);
             // the TCP analyzer tracks timestamps per direction: two entries per connection
             cfg.cap = if kind == PoolKind::Tcp { 2 * n } else { n };
-            return Scn { idle_gap: None, cfg, trace, probe: vec![], via_analyzer: false, schedules: vec![r.next_u64()], iters: 2, sched: Sched::Random };
+            return Scn { idle_gap: None, reinit_pool: false, cfg, trace, probe: vec![], via_analyzer: false, schedules: vec![r.next_u64()], iters: 2, sched: Sched::Random };
         }
         let n = r.urange(2, tier.pick(6, 12));
         let trace = gen_trace(r, kind, n, true);
@@ -432,7 +438,8 @@ impl Prop for C10 {
         // (a pause is explored under the random scheduler only: under PCT the dispatcher's wait for the queues to
         // drain spins to its cap while low-priority workers starve, and one scenario then costs a minute of CPU)
         let sched = if tier == Tier::Thorough && idle_gap.is_none() && r.chance(1, 4) { Sched::Pct(r.urange(2, 3)) } else { Sched::Random };
-        Scn { idle_gap, cfg, trace, probe: vec![], via_analyzer: via, schedules: (0..n_sched).map(|_| r.next_u64()).collect(), iters: tier.pick(8, 20), sched }
+        let reinit_pool = via && kind == PoolKind::Http && r.chance(1, 2);
+        Scn { idle_gap, reinit_pool, cfg, trace, probe: vec![], via_analyzer: via, schedules: (0..n_sched).map(|_| r.next_u64()).collect(), iters: tier.pick(8, 20), sched }
     }
 
     fn run(s: &Scn, st: &mut RunStats) -> Result<(), Violation> {
@@ -471,7 +478,7 @@ impl Prop for C08Pool {
         cfg.workers = *r.pick(&[1usize, 2, 3, 4, 8]);
         cfg.batch = *r.pick(&[1usize, 2, 4, 32]);
         let n_sched = tier.pick(2, 8);
-        Scn { idle_gap: None, cfg, trace, probe: vec![], via_analyzer: false, schedules: (0..n_sched).map(|_| r.next_u64()).collect(), iters: tier.pick(6, 12), sched: Sched::Random }
+        Scn { idle_gap: None, reinit_pool: false, cfg, trace, probe: vec![], via_analyzer: false, schedules: (0..n_sched).map(|_| r.next_u64()).collect(), iters: tier.pick(6, 12), sched: Sched::Random }
     }
 
     fn run(s: &Scn, st: &mut RunStats) -> Result<(), Violation> {
@@ -532,7 +539,7 @@ impl Prop for C01Pool {
         let mut cfg = gen_cfg(r, kind, trace.len() + probe.len());
         cfg.workers = *r.pick(&[1usize, 2, 3, 4]);
         let n_sched = tier.pick(2, 6);
-        Scn { idle_gap: None, cfg, trace, probe, via_analyzer: false, schedules: (0..n_sched).map(|_| r.next_u64()).collect(), iters: tier.pick(4, 10), sched: Sched::Random }
+        Scn { idle_gap: None, reinit_pool: false, cfg, trace, probe, via_analyzer: false, schedules: (0..n_sched).map(|_| r.next_u64()).collect(), iters: tier.pick(4, 10), sched: Sched::Random }
     }
 
     fn run(s: &Scn, st: &mut RunStats) -> Result<(), Violation> {
@@ -591,7 +598,7 @@ impl Prop for C15Pool {
         let mut cfg = gen_cfg(r, kind, trace.len());
         cfg.filter = Some(super::c15::gen_filter(r, &trace));
         let n_sched = tier.pick(2, 6);
-        Scn { idle_gap: None, cfg, trace, probe: vec![], via_analyzer: r.chance(1, 4), schedules: (0..n_sched).map(|_| r.next_u64()).collect(), iters: tier.pick(4, 10), sched: Sched::Random }
+        Scn { idle_gap: None, reinit_pool: false, cfg, trace, probe: vec![], via_analyzer: r.chance(1, 4), schedules: (0..n_sched).map(|_| r.next_u64()).collect(), iters: tier.pick(4, 10), sched: Sched::Random }
     }
 
     fn run(s: &Scn, st: &mut RunStats) -> Result<(), Violation> {
@@ -603,7 +610,7 @@ impl Prop for C15Pool {
         let mut unfiltered = s.cfg.clone();
         unfiltered.filter = None;
         let expect = sequential(&unfiltered, &sub)?;
-        let plan = Arc::new(ExecPlan { via_analyzer: s.via_analyzer, cfg: s.cfg.clone(), dispatchers: vec![s.trace.iter().map(|p| p.frame.clone()).collect()], stats_calls: 0, wait_for: None, consumer_gone_after: None, shutdown_after_yields: None, idle_gap: None });
+        let plan = Arc::new(ExecPlan { via_analyzer: s.via_analyzer, cfg: s.cfg.clone(), dispatchers: vec![s.trace.iter().map(|p| p.frame.clone()).collect()], stats_calls: 0, wait_for: None, consumer_gone_after: None, shutdown_after_yields: None, idle_gap: None, reinit_pool: false });
         let n_adm = admit.iter().filter(|a| **a == Some(true)).count();
         let n_rej = admit.iter().filter(|a| **a == Some(false)).count();
         st.probe_n("frames_admitted", n_adm as u64);
